@@ -77,18 +77,25 @@ impl Window {
             },
         };
 
+        // Las jambas son planos verticales (su normal es el eje X del opaco, siempre horizontal).
+        // En ese plano, el borde lateral del hueco sigue la dirección (cos tilt, sin tilt) y
+        // la normal del opaco la dirección (-sin tilt, cos tilt), que solo coinciden con los ejes
+        // cuando el opaco es vertical (tilt = 90)
+        let (sin_t, cos_t) = wallgeom.tilt.to_radians().sin_cos();
+        let (h, s) = (wing.height, wing.setback);
+
         let left_fin = Shade {
             id: uuid_from_str(&format!("{}-left_setback", self.id)),
             name: format!("{}_left_setback", self.name),
             geometry: WallGeom {
-                tilt: wallgeom.tilt,
+                tilt: 90.0,
                 azimuth: wallgeom.azimuth + 90.0,
                 position: Some(wall2world * point![wpos.x, wpos.y + wing.height, 0.0]),
                 polygon: vec![
                     point![0.0, 0.0],
-                    point![0.0, -wing.height],
-                    point![wing.setback, -wing.height],
-                    point![wing.setback, 0.0],
+                    point![-h * cos_t, -h * sin_t],
+                    point![-h * cos_t + s * sin_t, -h * sin_t - s * cos_t],
+                    point![s * sin_t, -s * cos_t],
                 ],
             },
         };
@@ -97,14 +104,14 @@ impl Window {
             id: uuid_from_str(&format!("{}-right_setback", self.id)),
             name: format!("{}_right_setback", self.name),
             geometry: WallGeom {
-                tilt: wallgeom.tilt,
+                tilt: 90.0,
                 azimuth: wallgeom.azimuth - 90.0,
                 position: Some(wall2world * point![wpos.x + wing.width, wpos.y + wing.height, 0.0]),
                 polygon: vec![
                     point![0.0, 0.0],
-                    point![-wing.setback, 0.0],
-                    point![-wing.setback, -wing.height],
-                    point![0.0, -wing.height],
+                    point![-s * sin_t, -s * cos_t],
+                    point![-s * sin_t + h * cos_t, -s * cos_t - h * sin_t],
+                    point![h * cos_t, -h * sin_t],
                 ],
             },
         };
